@@ -408,19 +408,23 @@ class Vector(AutoSerialize):
         if not isinstance(value, list):
             raise TypeError("For fancy indexing, value must be a list of numpy arrays")
 
-        # Validate and set values
-        for idx in np.ndindex(*[len(i) for i in indices_arrays]):
+        total_indices = int(np.prod([len(i) for i in indices_arrays]))
+        if len(value) != total_indices:
+            raise ValueError(f"Expected {total_indices} arrays, got {len(value)}")
+
+        # Validate and set values: one array per addressed cell, in row-major order
+        for array_idx, idx in enumerate(np.ndindex(*[len(i) for i in indices_arrays])):
             src_idx = tuple(ind[i] for ind, i in zip(indices_arrays, idx))
-            if not isinstance(value[idx[0]], np.ndarray):
-                raise TypeError(f"Expected numpy array, got {type(value[idx[0]]).__name__}")
-            if value[idx[0]].ndim != 2 or value[idx[0]].shape[1] != self.num_fields:
+            if not isinstance(value[array_idx], np.ndarray):
+                raise TypeError(f"Expected numpy array, got {type(value[array_idx]).__name__}")
+            if value[array_idx].ndim != 2 or value[array_idx].shape[1] != self.num_fields:
                 raise ValueError(
-                    f"Expected array with shape (_, {self.num_fields}), got {value[idx[0]].shape}"
+                    f"Expected array with shape (_, {self.num_fields}), got {value[array_idx].shape}"
                 )
             ref = self._data
             for i in src_idx[:-1]:
                 ref = ref[i]
-            ref[src_idx[-1]] = value[idx[0]]
+            ref[src_idx[-1]] = value[array_idx]
 
     @overload
     def __getitem__(self, idx: str) -> "_FieldView": ...
